@@ -1,5 +1,598 @@
 import Sentinel.Drv.Common
-/-! Driver for C18 (stub: replaced by the property's real driver) -/
+import Sentinel.Model.DatasourceRules
+/-!
+# Driver for C18
+
+`model` runs `Sentinel.Datasource.deliver` (the handler state machine the theorems are about) with, as the `conv`
+parameter, a small hand-written JSON **text** parser for the generator's payload alphabet followed by the table-driven
+tree codec; `spec` folds the payload history with the property as stated (decodable ⇒ exactly the valid rules of the
+list, undecodable ⇒ error and unchanged; no memory of the last payload at all).  Text-level JSON is trusted to
+`encoding/json`: anything outside the alphabet prints `?`.
+-/
 namespace Sentinel.Drv.C18
-def run (_mode : String) : IO Unit := IO.eprintln "C18: driver not implemented"
+open Sentinel.Datasource Sentinel.Drv
+
+/-! ## bytes -/
+
+def hexVal (c : Char) : Option Nat :=
+  if '0' ≤ c ∧ c ≤ '9' then some (c.toNat - 48)
+  else if 'a' ≤ c ∧ c ≤ 'f' then some (c.toNat - 87) else none
+
+def hexBytes : List Char → Option (List Nat)
+  | [] => some []
+  | a :: b :: rest => do
+    let x ← hexVal a
+    let y ← hexVal b
+    let r ← hexBytes rest
+    pure ((x * 16 + y) :: r)
+  | _ => none
+
+def payloadBytes (tok : String) : Option (List Nat) := if tok = "-" then some [] else hexBytes tok.toList
+
+def hexOfString (s : String) : String :=
+  String.ofList (s.toUTF8.toList.flatMap fun b => [hexDigit (b.toNat / 16), hexDigit (b.toNat % 16)])
+
+/-! ## JSON text (RFC 8259 as `encoding/json` checks it), for ASCII payloads -/
+
+inductive PR (α : Type) where
+  | ok (a : α) (rest : List Char)
+  | bad                 -- syntax error
+  | outside             -- not in the alphabet this parser handles
+
+def isWs (c : Char) : Bool := c = ' ' || c = '\t' || c = '\n' || c = '\r'
+def skipWs : List Char → List Char
+  | c :: cs => if isWs c then skipWs cs else c :: cs
+  | [] => []
+
+def isDigit (c : Char) : Bool := '0' ≤ c && c ≤ '9'
+
+def takeDigits : List Char → List Char × List Char
+  | c :: cs => if isDigit c then let (d, r) := takeDigits cs; (c :: d, r) else ([], c :: cs)
+  | [] => ([], [])
+
+def digitsVal (ds : List Char) : Nat := ds.foldl (fun a c => a * 10 + (c.toNat - 48)) 0
+
+/-- the binary64 nearest to `±mant · 10^e10` (Lean's `Float.ofScientific`) -/
+def mkFloat (neg : Bool) (mant : Nat) (e10 : Int) : Float :=
+  let f := if e10 ≥ 0 then Float.ofScientific mant false e10.toNat else Float.ofScientific mant true (-e10).toNat
+  if neg then -f else f
+
+/-- after the body of a string literal's opening quote -/
+def parseStr : List Char → List Char → PR String
+  | _, [] => .bad
+  | acc, '"' :: rest => .ok (String.ofList acc.reverse) rest
+  | acc, '\\' :: c :: rest =>
+    if c = '"' || c = '\\' || c = '/' then parseStr (c :: acc) rest
+    else if c = 'n' then parseStr ('\n' :: acc) rest
+    else if c = 't' then parseStr ('\t' :: acc) rest
+    else if c = 'r' then parseStr ('\r' :: acc) rest
+    else if c = 'b' then parseStr (Char.ofNat 8 :: acc) rest
+    else if c = 'f' then parseStr (Char.ofNat 12 :: acc) rest
+    else if c = 'u' then .outside
+    else .bad
+  | _, ['\\'] => .bad
+  | acc, c :: rest =>
+    if c.toNat < 32 then .bad else if c.toNat ≥ 127 then .outside else parseStr (c :: acc) rest
+
+/-- a number literal starting at `cs` (first char is `-` or a digit) -/
+def parseNum (cs : List Char) : PR JNum :=
+  let (neg, cs) := match cs with
+    | '-' :: r => (true, r)
+    | r => (false, r)
+  let (ip, r1) := takeDigits cs
+  if ip.isEmpty then .bad
+  else if ip.length > 1 && ip.head? = some '0' then .bad        -- leading zero
+  else
+    let (fp, r2, okf) := match r1 with
+      | '.' :: r => let (d, r') := takeDigits r; (d, r', !d.isEmpty)
+      | r => ([], r, true)
+    if !okf then .bad else
+    let (hasE, eneg, ep, r3, oke) := match r2 with
+      | 'e' :: r | 'E' :: r =>
+        let (sg, r') := match r with
+          | '-' :: q => (true, q)
+          | '+' :: q => (false, q)
+          | q => (false, q)
+        let (d, r'') := takeDigits r'
+        (true, sg, d, r'', !d.isEmpty)
+      | r => (false, false, [], r, true)
+    if !oke then .bad else
+    if fp.isEmpty && !hasE then
+      let v := digitsVal ip
+      if neg && v = 0 && !r3.isEmpty then .outside               -- "-0": int vs uint fields disagree (at the very end: a truncation or a bare `-0`, no field involved)
+      else .ok (.int (if neg then -(Int.ofNat v) else Int.ofNat v)) r3
+    else
+      if ep.length > 4 || ip.length + fp.length > 400 then .outside else
+      let e := (if eneg then -(Int.ofNat (digitsVal ep)) else Int.ofNat (digitsVal ep)) - Int.ofNat fp.length
+      .ok (.flt (mkFloat neg (digitsVal (ip ++ fp)) e).toBits) r3
+
+def startsWith (cs : List Char) (p : String) : Option (List Char) :=
+  if p.toList.isPrefixOf cs then some (cs.drop p.length) else none
+
+mutual
+  def parseValue : Nat → List Char → PR Json
+    | 0, _ => .outside
+    | fuel + 1, cs =>
+      match skipWs cs with
+      | [] => .bad
+      | '"' :: rest => match parseStr [] rest with
+        | .ok s r => .ok (.str s) r
+        | .bad => .bad
+        | .outside => .outside
+      | '[' :: rest =>
+        (match skipWs rest with
+         | ']' :: r => .ok (.arr []) r
+         | r => match parseElems fuel r with
+           | .ok xs r' => .ok (.arr xs) r'
+           | .bad => .bad
+           | .outside => .outside)
+      | '{' :: rest =>
+        (match skipWs rest with
+         | '}' :: r => .ok (.obj []) r
+         | r => match parseMembers fuel r with
+           | .ok kvs r' => .ok (.obj kvs) r'
+           | .bad => .bad
+           | .outside => .outside)
+      | c :: rest =>
+        if c = '-' || isDigit c then
+          match parseNum (c :: rest) with
+          | .ok n r => .ok (.num n) r
+          | .bad => .bad
+          | .outside => .outside
+        else match startsWith (c :: rest) "true" with
+          | some r => .ok (.bool true) r
+          | none => match startsWith (c :: rest) "false" with
+            | some r => .ok (.bool false) r
+            | none => match startsWith (c :: rest) "null" with
+              | some r => .ok .null r
+              | none => if c.toNat ≥ 127 then .outside else .bad
+  /-- `value (',' value)* ']'` -/
+  def parseElems : Nat → List Char → PR (List Json)
+    | 0, _ => .outside
+    | fuel + 1, cs =>
+      match parseValue fuel cs with
+      | .bad => .bad
+      | .outside => .outside
+      | .ok v r =>
+        match skipWs r with
+        | ']' :: r' => .ok [v] r'
+        | ',' :: r' => (match parseElems fuel r' with
+          | .ok vs r'' => .ok (v :: vs) r''
+          | .bad => .bad
+          | .outside => .outside)
+        | c :: _ => if c.toNat ≥ 127 then .outside else .bad
+        | [] => .bad
+  /-- `string ':' value (',' string ':' value)* '}'` -/
+  def parseMembers : Nat → List Char → PR (List (String × Json))
+    | 0, _ => .outside
+    | fuel + 1, cs =>
+      match skipWs cs with
+      | '"' :: rest =>
+        (match parseStr [] rest with
+         | .bad => .bad
+         | .outside => .outside
+         | .ok k r =>
+           match skipWs r with
+           | ':' :: r1 =>
+             (match parseValue fuel r1 with
+              | .bad => .bad
+              | .outside => .outside
+              | .ok v r2 =>
+                match skipWs r2 with
+                | '}' :: r3 => .ok [(k, v)] r3
+                | ',' :: r3 => (match parseMembers fuel r3 with
+                  | .ok kvs r4 => .ok ((k, v) :: kvs) r4
+                  | .bad => .bad
+                  | .outside => .outside)
+                | c :: _ => if c.toNat ≥ 127 then .outside else .bad
+                | [] => .bad)
+           | c :: _ => if c.toNat ≥ 127 then .outside else .bad
+           | [] => .bad)
+      | c :: _ => if c.toNat ≥ 127 then .outside else .bad
+      | [] => .bad
+end
+
+/-- whole document: `some none` = syntax error, `none` = outside the alphabet -/
+def parseDoc (bytes : List Nat) : Option (Option Json) :=
+  if bytes.any (· ≥ 127) then none else
+  let cs := bytes.map Char.ofNat
+  match parseValue (2 * cs.length + 4) cs with
+  | .outside => none
+  | .bad => some none
+  | .ok v rest => if (skipWs rest).isEmpty then some (some v) else
+      (if rest.any (fun c => c.toNat ≥ 127) then none else some none)
+
+/-! ## Go's strconv on the generator's alphabet -/
+
+def atoiGo (s : String) : Option Int :=
+  let cs := s.toList
+  let (neg, ds) := match cs with
+    | '-' :: r => (true, r)
+    | '+' :: r => (false, r)
+    | r => (false, r)
+  if ds.isEmpty || !ds.all isDigit then none else
+  let v : Int := if neg then -(Int.ofNat (digitsVal ds)) else Int.ofNat (digitsVal ds)
+  if Kind.i64.inRange v then some v else none
+
+def pboolGo (s : String) : Option Bool :=
+  if ["1", "t", "T", "TRUE", "true", "True"].contains s then some true
+  else if ["0", "f", "F", "FALSE", "false", "False"].contains s then some false else none
+
+def pow2 (n : Nat) : Nat := 2 ^ n
+
+/-- `ParseFloat(fmt.Sprintf("%.5f", x), 64)`: exact decimal rounding (half-even) to five places, then the nearest binary64 -/
+def norm5 (x : Float) : Float :=
+  if x.isNaN || x.isInf then x else
+  let b := x.toBits
+  let neg := (b >>> 63) != 0
+  let e := ((b >>> 52) &&& 0x7ff).toNat
+  let f := (b &&& 0xfffffffffffff).toNat
+  let (m, ex) : Nat × Int := if e = 0 then (f, -1074) else (f + pow2 52, Int.ofNat e - 1075)
+  let q : Nat :=
+    if ex ≥ 0 then m * pow2 ex.toNat * 100000
+    else
+      let num := m * 100000
+      let den := pow2 (-ex).toNat
+      let fl := num / den
+      let rem2 := 2 * (num % den)
+      if rem2 > den then fl + 1 else if rem2 < den then fl else (if fl % 2 = 0 then fl else fl + 1)
+  mkFloat neg q (-5)
+
+/-- `strconv.ParseFloat` on the alphabet `[+-]?d+(.d+)?([eE][+-]?d+)?` and a few special words;
+    `none` = outside, `some none` = error -/
+def pfloatRaw (s : String) : Option (Option Float) :=
+  if s = "NaN" || s = "nan" then some (some (0.0 / 0.0))
+  else if s = "Inf" || s = "+Inf" || s = "inf" || s = "Infinity" then some (some (1.0 / 0.0))
+  else if s = "-Inf" || s = "-inf" then some (some (-1.0 / 0.0))
+  else
+  let cs := s.toList
+  match cs with
+  | [] => some none
+  | c0 :: _ =>
+    if cs.any (· = ' ') then some none
+    else if c0.isAlpha && !(c0 = 'i' || c0 = 'I' || c0 = 'n' || c0 = 'N') then some none
+    else
+      let (neg, r0) := match cs with
+        | '-' :: r => (true, r)
+        | '+' :: r => (false, r)
+        | r => (false, r)
+      let (ip, r1) := takeDigits r0
+      if ip.isEmpty then none else
+      let (fp, r2, okf) := match r1 with
+        | '.' :: r => let (d, r') := takeDigits r; (d, r', !d.isEmpty)
+        | r => ([], r, true)
+      if !okf then none else
+      let (eneg, ep, r3, oke) := match r2 with
+        | 'e' :: r | 'E' :: r =>
+          let (sg, r') := match r with
+            | '-' :: q => (true, q)
+            | '+' :: q => (false, q)
+            | q => (false, q)
+          let (d, r'') := takeDigits r'
+          (sg, d, r'', !d.isEmpty)
+        | r => (false, [], r, true)
+      if !oke || !r3.isEmpty || ep.length > 3 || ip.length + fp.length > 60 then none else
+      let e := (if eneg then -(Int.ofNat (digitsVal ep)) else Int.ofNat (digitsVal ep)) - Int.ofNat fp.length
+      let v := mkFloat neg (digitsVal (ip ++ fp)) e
+      if v.isInf then some none else some (some v)         -- out of range is an error for ParseFloat
+
+def pfloatGo (s : String) : Option UInt64 :=
+  match pfloatRaw s with
+  | some (some v) => some (norm5 v).toBits
+  | _ => none
+
+def goStrConv : StrConv := { atoi := atoiGo, pbool := pboolGo, pfloat := pfloatGo }
+
+/-! ## alphabet check on trees (what `encoding/json` does beyond exact names) -/
+
+def lower (s : String) : String := String.ofList (s.toList.map Char.toLower)
+
+def keysOutside (ts : List Tag) (kvs : List (String × Json)) : Bool :=
+  kvs.any (fun kv => !(ts.any (·.json = kv.1)) && ts.any (fun t => lower t.json = lower kv.1))
+  || ts.any (fun t => t.kind = .items && (kvs.filter (·.1 = t.json)).length > 1)
+
+def itemsOutside (j : Json) : Bool :=
+  match j with
+  | .arr xs => xs.any fun x => match x with
+    | .obj kvs => keysOutside specificTags kvs ||
+        (match (SpecificValue.fromKvs kvs {}) with
+         | some v => v.valKind = 3 && (pfloatRaw v.valStr).isNone
+         | none => false)
+    | _ => false
+  | _ => false
+
+def treeOutside (ts : List Tag) (j : Json) : Bool :=
+  match j with
+  | .arr xs => xs.any fun x => match x with
+    | .obj kvs => keysOutside ts kvs || kvs.any (fun kv => kv.1 = "specificItems" && itemsOutside kv.2)
+    | _ => false
+  | _ => false
+
+/-! ## the five modules -/
+
+def gi (r : Rec) (n : Nat) : Int := match r.getD n (.i 0) with | .i v => v | _ => 0
+def gs (r : Rec) (n : Nat) : String := match r.getD n (.s "") with | .s v => v | _ => ""
+def gf (r : Rec) (n : Nat) : Float := match r.getD n (.f 0) with | .f b => Float.ofBits b | _ => 0.0
+def gm (r : Rec) (n : Nat) : List (SKey × Int) := match r.getD n (.smap []) with | .smap m => m | _ => []
+
+def flowValid (r : Rec) : Bool :=
+  gs r 1 != "" && !(gf r 4 < 0) && gi r 2 ≥ 0 && gi r 3 ≥ 0 && (gi r 5 = 0 || gi r 5 = 1)
+  && !(gi r 5 = 1 && gs r 6 = "")
+  && !(gi r 2 = 1 && (gi r 8 ≤ 0 || gi r 9 = 1))
+  && !(gi r 2 = 2 && (gi r 11 ≤ 0 || gi r 12 ≤ 0 || gi r 12 ≥ gi r 11 || gi r 13 ≤ 0 || gi r 14 ≤ 0 || gi r 13 ≥ gi r 14))
+  && gi r 2 ≤ 2 && gi r 3 ≤ 1          -- a controller generator exists (otherwise the rule is never in force)
+
+/-- memory-adaptive rules are valid only below the machine's memory size: not claimed above 1 MiB -/
+def flowUnknown (r : Rec) : Bool := gi r 2 = 2 && gi r 14 > 1048576 && flowValid r
+
+def flowNorm (r : Rec) : Rec :=
+  if gi r 2 = 1 && gi r 9 ≤ 1 then r.set 9 (.i 3) else r        -- config.DefaultWarmUpColdFactor
+
+def flowEquiv (o n : Rec) : Bool :=
+  gs o 1 = gs n 1 && gi o 5 = gi n 5 && gs o 6 = gs n 6 && gi o 10 = gi n 10 && gi o 2 = gi n 2 && gi o 3 = gi n 3
+  && (gf o 4 - gf n 4).abs < 0.00000001
+  && gi o 7 = gi n 7 && gi o 8 = gi n 8 && gi o 9 = gi n 9 && gi o 11 = gi n 11 && gi o 12 = gi n 12
+  && gi o 13 = gi n 13 && gi o 14 = gi n 14
+
+def systemValid (r : Rec) : Bool :=
+  !(gf r 2 < 0) && gi r 1 < 5 && !(gi r 1 = 4 && gf r 2 > 1)
+
+def cbValid (r : Rec) : Bool :=
+  gs r 1 != "" && gi r 5 > 0 && gi r 3 > 0 && !(gf r 8 < 0) && !(gi r 2 = 0 && gf r 8 > 1) && !(gi r 2 = 1 && gf r 8 > 1)
+
+def isolationValid (r : Rec) : Bool := gs r 1 != "" && gi r 2 = 0 && gi r 3 != 0
+
+/-- on `hotspot.Rule` records (12 fields) -/
+def hotspotValid (r : Rec) : Bool :=
+  gs r 1 != "" && gi r 6 ≥ 0 && gi r 2 ≥ 0 && gi r 3 ≥ 0 && !(gi r 2 = 1 && gi r 9 ≤ 0)
+  && !(gi r 4 > 0 && gs r 5 != "")
+  && !(gi r 3 = 0 && gi r 8 < 0) && !(gi r 3 = 1 && gi r 7 < 0)
+  && gi r 3 ≤ 1 && gi r 2 ≤ 1          -- a controller can be built
+
+def isNaNKey : SKey → Bool
+  | .flt b => !finiteBits b && (b &&& 0xfffffffffffff) != 0
+  | _ => false
+
+/-- `reflect.DeepEqual` of two non-nil `map[interface{}]int64` -/
+def mapDeepEq (a b : List (SKey × Int)) : Bool :=
+  a.length = b.length && a.all fun p => !isNaNKey p.1 && b.any fun q => q.1.goEq p.1 && q.2 = p.2
+
+def hotspotEquiv (o n : Rec) : Bool :=
+  gs o 1 = gs n 1 && gi o 2 = gi n 2 && gi o 3 = gi n 3 && gi o 10 = gi n 10 && gi o 4 = gi n 4 && gs o 5 = gs n 5
+  && gi o 6 = gi n 6 && gi o 9 = gi n 9 && mapDeepEq (gm o 11) (gm n 11)
+  && (if gi o 3 = 0 then gi o 8 = gi n 8 else if gi o 3 = 1 then gi o 7 = gi n 7 else false)
+
+structure ModDef where
+  name : String
+  tags : List Tag
+  mo : Module Rec
+  hotspot : Bool := false
+  unknown : Rec → Bool := fun _ => false
+
+def modDefs : List ModDef := [
+  { name := "flow", tags := flowTags, mo := { valid := flowValid, norm := flowNorm, equiv := flowEquiv }, unknown := flowUnknown },
+  { name := "system", tags := systemTags, mo := { valid := systemValid } },
+  { name := "cb", tags := cbTags, mo := { valid := cbValid } },
+  { name := "isolation", tags := isolationTags, mo := { valid := isolationValid } },
+  { name := "hotspot", tags := hotspotTags, mo := { valid := hotspotValid, equiv := hotspotEquiv }, hotspot := true }]
+
+def findMod (n : String) : Option ModDef := modDefs.find? (·.name = n)
+
+/-! ## printing (same canonical form as the Go interpreter) -/
+
+def sortStrings (xs : List String) : List String := (xs.toArray.qsort (· < ·)).toList
+
+def showKey : SKey → String
+  | .int v => s!"i:{v}"
+  | .str s => "s:" ++ hexOfString s
+  | .bool b => if b then "b:1" else "b:0"
+  | .flt b => fbits (Float.ofBits b)
+
+def showVal : Val → String
+  | .s x => "s" ++ hexOfString x
+  | .i x => toString x
+  | .f b => fbits (Float.ofBits b)
+  | .items _ => "items"
+  | .smap m => "<" ++ "|".intercalate (sortStrings (m.map fun p => showKey p.1 ++ "=" ++ toString p.2)) ++ ">"
+
+def showRec (r : Rec) : String := "{" ++ ",".intercalate (r.map showVal) ++ "}"
+def showRules (rs : List Rec) : String := "[" ++ ";".intercalate (sortStrings (rs.map showRec)) ++ "]"
+
+/-! ## converters on bytes -/
+
+/-- the as-is converter of a module (the `conv` parameter of the model); `none` = outside the alphabet -/
+def convOf (md : ModDef) (bytes : List Nat) : Option (Conv (WireList Rec)) :=
+  if bytes.isEmpty then some (.ok none) else
+  match parseDoc bytes with
+  | none => none
+  | some tree =>
+    let ts := if md.hotspot then hotspotCoreTags else md.tags       -- names incl. paramKey for the case check
+    if (match tree with | some j => treeOutside ts j | none => false) then none
+    else
+      let c := if md.hotspot then convHotspot goStrConv false tree else convPlain md.tags false tree
+      let unk := match c with
+        | .ok (some l) => l.elems.any md.unknown
+        | _ => false
+      if unk then none else some c
+
+/-- `datasource.HotspotRule` as the property reads the wire format: with the `paramKey` of `hotspot.Rule` -/
+def hotspotIdealTags : List Tag :=
+  hotspotTags.take 5 ++ [⟨"ParamKey", .str, "paramKey", false⟩] ++ hotspotTags.drop 5
+
+def hotspotIdealToCore : Rec → Rec
+  | [id, res, mt, cb, pidx, pkey, thr, mq, burst, dur, cap, .items its] =>
+    [id, res, mt, cb, pidx, pkey, thr, mq, burst, dur, cap, .smap (parseSpecific goStrConv its)]
+  | r => r
+
+/-- the converter the property describes: `null` elements are nil rules for every module, nothing is dropped -/
+def convIdeal (md : ModDef) (bytes : List Nat) : Option (Conv (WireList Rec)) :=
+  if !md.hotspot then convOf md bytes else
+  match convOf md bytes with
+  | none => none
+  | some _ =>
+    if bytes.isEmpty then some (.ok none) else
+    match parseDoc bytes with
+    | some tree =>
+      (match convPlain hotspotIdealTags false tree with
+       | .ok (some (some xs)) => some (.ok (some (some (xs.map fun o => o.map hotspotIdealToCore))))
+       | .ok (some none) => some (.ok (some (some [])))
+       | c => some c)
+    | none => none
+
+/-! ## state -/
+
+structure ModSt where
+  hm : Handler (WireList Rec) × Mgr Rec := ({}, {})
+  ideal : List Rec := []          -- the property as stated: exactly the valid rules of the last decodable payload
+  hmI : Handler (WireList Rec) × Mgr Rec := ({}, {})   -- ideal decoding through the as-is handler and manager
+  lost : Bool := false            -- a payload outside the alphabet was delivered: nothing is claimed any more
+  cause : String := ""
+
+structure FileSt where
+  md : ModDef
+  src : FileSrc (List Nat) Rec
+
+structure St where
+  mods : List (String × ModSt) := []
+  file : Option FileSt := none
+
+def getMod (s : St) (n : String) : ModSt := ((s.mods.find? (·.1 = n)).map (·.2)).getD {}
+def setMod (s : St) (n : String) (m : ModSt) : St :=
+  { s with mods := (n, m) :: s.mods.filter (·.1 != n) }
+
+def valDeepEq : Val → Val → Bool
+  | .f a, .f b => (SKey.flt a).goEq (.flt b)            -- float fields are compared with `==`: +0 = -0
+  | .smap a, .smap b => mapDeepEq a b
+  | a, b => a == b
+
+def recDeepEq (a b : Rec) : Bool := a.length = b.length && (a.zip b).all fun p => valDeepEq p.1 p.2
+
+/-- `reflect.DeepEqual(src, h.lastUpdateProperty)` on `nil` / `[]*Rule` values (the `eqv` parameter of the model) -/
+def structEq (a b : Option (WireList Rec)) : Bool :=
+  match a, b with
+  | none, none => true
+  | some none, some none => true
+  | some (some xs), some (some ys) =>
+    xs.length = ys.length && (xs.zip ys).all fun p => match p.1, p.2 with
+      | none, none => true
+      | some x, some y => recDeepEq x y
+      | _, _ => false
+  | _, _ => false
+
+/-- one delivery; returns the new module state and the return value of `Handle` (`none` = outside) -/
+def deliverMod (md : ModDef) (ms : ModSt) (bytes : List Nat) : ModSt × Option (Ret × Ret) :=
+  if ms.lost then (ms, none) else
+  match convOf md bytes, convIdeal md bytes with
+  | some c, some ci =>
+    -- the model proper
+    let (hm', o) := deliver (fun (_ : Unit) => c) structEq md.mo ms.hm ()
+    let ret := match o with | .ret r => r | .panicked => Ret.nil
+    -- the property as stated
+    let hmI' := (deliver (fun (_ : Unit) => ci) structEq md.mo ms.hmI ()).1
+    let (ideal', cause') := match ci with
+      | .ok v =>
+        let vs := validElems md.mo.valid v
+        let hasKey := md.hotspot && (match v with | some l => l.elems.any (fun r => gs r 5 != "") | none => false)
+        let isPanic := match c with | .panic => true | _ => false
+        (vs.map md.mo.norm,
+          if isPanic then "null-element-swallowed" else if hasKey then "hotspot-paramkey-dropped" else ms.cause)
+      | _ =>
+        let asisOk := match c with | .ok _ => true | _ => false
+        (ms.ideal, if md.hotspot && asisOk then "hotspot-paramkey-dropped" else ms.cause)   -- a wrongly typed `paramKey` is not even looked at
+    let retIdeal := match ci with | .ok _ => Ret.nil | _ => Ret.err
+    ({ ms with hm := hm', ideal := ideal', hmI := hmI', cause := cause' }, some (ret, retIdeal))
+  | _, _ => ({ ms with lost := true }, none)
+
+def showRet : Ret → String
+  | .nil => "ok"
+  | .err => "err"
+
+/-- what is printed for an observation of a module's rules, with an optional `ok|err` prefix: in `model` mode the
+    as-is state; in `spec` mode the property's claim (marked when the as-is model is known to deviate from it) -/
+def claim (spec : Bool) (ms : ModSt) (preAsis preIdeal : String) : String :=
+  if ms.lost then "?" else
+  let asis := preAsis ++ showRules ms.hm.2.enforced
+  if !spec then asis else
+  let ideal := preIdeal ++ showRules ms.ideal
+  let reuse := preIdeal ++ showRules ms.hmI.2.enforced
+  if ideal = asis then ideal
+  else if ideal != reuse then "?known:stale-equal-rule:" ++ ideal
+  else "?known:" ++ (if ms.cause = "" then "unexplained" else ms.cause) ++ ":" ++ ideal
+
+def fileConv (md : ModDef) (b : List Nat) : Conv (WireList Rec) := (convOf md b).getD .err
+
+def tagsOf (n : String) : Option (List Tag) :=
+  match n with
+  | "specific" => some specificTags
+  | "hotspot.core" => some hotspotCoreTags
+  | _ => (findMod n).map (·.tags)
+
+def step (spec : Bool) (s : St) (ts : List String) (_line : String) : St × Option String :=
+  match ts with
+  | ["ds.handle", m, p] =>
+    (match findMod m, payloadBytes p with
+     | some md, some bytes =>
+       let (ms', r) := deliverMod md (getMod s m) bytes
+       let s' := setMod s m ms'
+       (match r with
+        | none => (s', some "?")
+        | some r =>
+          -- the return value: the spec expects `err` exactly for an undecodable payload
+          (s', some (claim spec ms' (showRet r.1 ++ " ") (showRet r.2 ++ " "))))
+     | _, _ => (s, some "bad-op"))
+  | ["rules", m] =>
+    (match findMod m with
+     | some _ => (s, some (claim spec (getMod s m) "" ""))
+     | none => (s, some "bad-op"))
+  | ["tags", m] =>
+    (match tagsOf m with
+     | some t => (s, some (showTags t))
+     | none => (s, some "bad-op"))
+  | ["file.new", m, p] =>
+    (match findMod m with
+     | none => (s, some "bad-op")
+     | some md =>
+       let content := if p = "none" then some none else (payloadBytes p).map some
+       match content with
+       | none => (s, some "bad-op")
+       | some content =>
+         let (src, ok) := FileSrc.init (fileConv md) structEq md.mo content
+         let (ms', r) := match content with
+           | some bytes => deliverMod md (getMod s m) bytes
+           | none => (getMod s m, some (Ret.nil, Ret.nil))
+         let ms' := { ms' with hm := src.hm }
+         let s' := setMod s m ms'
+         let pre := if ok then "ok " else "err "
+         ({ s' with file := some { md := md, src := src } }, some (if r.isNone then "?" else claim spec ms' pre pre)))
+  | ["file.write", p] =>
+    (match s.file, payloadBytes p with
+     | some f, some bytes =>
+       let stp := FileSrc.step (fileConv f.md) structEq f.md.mo []
+       let src' := stp (stp f.src (.write bytes)) .proc
+       let active := !f.src.closed && f.src.content.isSome
+       let ms := getMod s f.md.name
+       let (ms', _) := if active then deliverMod f.md ms bytes else (ms, none)
+       let ms' := { ms' with hm := src'.hm }
+       let s' := setMod s f.md.name ms'
+       ({ s' with file := some { f with src := src' } }, some (claim spec ms' "" ""))
+     | _, _ => (s, some "bad-op"))
+  | ["file.remove"] =>
+    (match s.file with
+     | some f =>
+       let src' := FileSrc.step (fileConv f.md) structEq f.md.mo [] f.src .remove
+       let ms := getMod s f.md.name
+       let (ms', _) := if !f.src.closed then deliverMod f.md ms [] else (ms, none)
+       let ms' := { ms' with hm := src'.hm }
+       let s' := setMod s f.md.name ms'
+       ({ s' with file := some { f with src := src' } }, some (claim spec ms' "" ""))
+     | none => (s, some "bad-op"))
+  | ["file.close"] => ({ s with file := none }, none)
+  | _ => (s, some "bad-op")
+
+def run (mode : String) : IO Unit :=
+  match mode with
+  | "model" => loop ({} : St) (step false)
+  | "spec" => loop ({} : St) (step true)
+  | _ => IO.eprintln "C18: modes are model | spec"
+
 end Sentinel.Drv.C18
